@@ -264,7 +264,9 @@ func (f *Fabric) RequestToLeave(ctx context.Context, r *protocol.RequestToLeaveR
 	return call(f, ctx, "RequestToLeave", r, func(s *implchord.Server) (*protocol.RequestToLeaveResponse, error) { return s.RequestToLeave(ctx, r) })
 }
 func (f *Fabric) FinishLeave(ctx context.Context, r *protocol.MembershipConclusionRequest) (*protocol.MembershipConclusionResponse, error) {
-	return call(f, ctx, "FinishLeave", r, func(s *implchord.Server) (*protocol.MembershipConclusionResponse, error) { return s.FinishLeave(ctx, r) })
+	return call(f, ctx, "FinishLeave", r, func(s *implchord.Server) (*protocol.MembershipConclusionResponse, error) {
+		return s.FinishLeave(ctx, r)
+	})
 }
 func (f *Fabric) Put(ctx context.Context, r *protocol.SimpleRequest) (*protocol.SimpleResponse, error) {
 	return call(f, ctx, "Put", r, func(s *implchord.Server) (*protocol.SimpleResponse, error) { return s.Put(ctx, r) })
